@@ -275,7 +275,8 @@ class Check:
             nviol = 1
             rc = 1
         self.write_evidence(nviol, sorted(reported_known))
-        shutil.rmtree(self.scratch, ignore_errors=True)
+        if not os.environ.get("VERIF_KEEP_SCRATCH"):
+            shutil.rmtree(self.scratch, ignore_errors=True)
         return rc
 
     def write_evidence(self, nviol, known_ids):
